@@ -92,10 +92,12 @@ bool ClosureContext::mark_finished(int32_t error_code,
   callback = _callback.load(::std::memory_order_relaxed);
   do {
     if (ABSL_PREDICT_FALSE(callback == SEALED_CALLBACK)) {
+      BABYLON_VERIF_POINT("af:closure_mark_finished_lost");
       return false;
     }
   } while (ABSL_PREDICT_FALSE(!_callback.compare_exchange_weak(
       callback, SEALED_CALLBACK, ::std::memory_order_acq_rel)));
+  BABYLON_VERIF_POINT("af:closure_mark_finished");
   _error_code = error_code;
   notify_finish();
   return true;
@@ -135,6 +137,7 @@ void ClosureContext::depend_vertex_add() noexcept {
 void ClosureContext::depend_vertex_sub() noexcept {
   int64_t waiting_num =
       _waiting_vertex_num.fetch_sub(1, ::std::memory_order_acq_rel) - 1;
+  BABYLON_VERIF_POINT("af:closure_vertex_sub");
   if (ABSL_PREDICT_FALSE(waiting_num == 0)) {
     Closure::Callback* callback = nullptr;
     if (mark_finished(-1, callback)) {
@@ -168,6 +171,7 @@ void ClosureContext::add_waiting_data(GraphData* data) noexcept {
 void ClosureContext::depend_data_sub() noexcept {
   int64_t waiting_num =
       _waiting_data_num.fetch_sub(1, ::std::memory_order_acq_rel) - 1;
+  BABYLON_VERIF_POINT("af:closure_data_sub");
   if (waiting_num == 0) {
     Closure::Callback* callback = nullptr;
     if (mark_finished(0, callback)) {
